@@ -434,6 +434,7 @@ fn main() {
     // ------------------------------------------------------------ problem streams
     let mut probs: Vec<(Prob, Cfg)> = vec![];
     let replaying = replay.is_some();
+    let mut replay_route: Option<Vec<(u8, usize, String)>> = None;
     if let Some(path) = replay.as_ref() {
         // a replay file holds the `input` of a failing case: {problem, settings, ..}
         let txt = std::fs::read_to_string(path).expect("cannot read replay file");
@@ -442,7 +443,11 @@ fn main() {
         if inp.get("problem").is_some() {
             probs.push((Prob::from_json(&inp["problem"]), Cfg::from_json(&inp["settings"])));
         }
+        if let Some(h) = inp.get("route_history").and_then(|x| x.as_array()) {
+            replay_route = Some(h.iter().map(|e| (e[0].as_u64().unwrap_or(6) as u8, e[1].as_u64().unwrap_or(0) as usize, e[2].as_str().unwrap_or("").to_string())).collect());
+        }
     }
+    let replay_has_route = replay_route.is_some();
     // corpus: regression problems kept from earlier findings ({"input": {"problem", "settings"}} files)
     if let (false, Some(dir)) = (replaying, corpus.as_ref()) {
         let mut files: Vec<_> = std::fs::read_dir(dir).map(|rd| rd.flatten().map(|e| e.path()).collect()).unwrap_or_default();
@@ -845,6 +850,104 @@ fn main() {
             let ok = matches!(r, RunResult::ConstructPanic);
             sink.record(json!({"direct": {"prop": "C04", "ok": ok, "what": format!("inconsistent dimensions ({}) rejected at construction", what), "input": {"case": what}}}));
             bump(&mut stats, "dimension_rejects");
+        }
+    }
+
+    // ------------------------------------------------------------ C20: routing histories against Solver/Route.v
+    if !replaying || replay_has_route {
+        let nh = if thorough { 1500 } else { 250 };
+        let pool: [&str; 9] = ["", "\n", "iter    pcost        dcost\n", "  0  -3.1415e+00  2.7183e-01  9.99e-01\n", "μ ≤ ∞ — ok\n",
+                               "Terminated with status = Solved\n", "x", "-------------------------------------------------------------\n", "κ/τ"];
+        let histories: Vec<Vec<(u8, usize, String)>> = if let Some(h) = replay_route.clone() { vec![h] } else {
+            (0..nh).map(|_| {
+                let len = 3 + rng.below(22);
+                (0..len).map(|_| {
+                    // op codes: 0 stdout, 1 file id, 2 stream id, 3 sink, 4 buffer, 5 write, 6 get, 7 clone
+                    let c = *rng.pick(&[1u8, 1, 2, 2, 3, 4, 4, 4, 5, 5, 5, 5, 5, 5, 5, 5, 5, 6, 6, 6, 7, 7, 0]);
+                    let id = rng.below(3);
+                    let mut text = String::new();
+                    if c == 5 {
+                        let k = 1 + rng.below(3);
+                        for _ in 0..k { text.push_str(pool[rng.below(pool.len())]); }
+                        if rng.chance(1, 12) { text = text.repeat(40); }
+                    }
+                    (c, id, text)
+                }).collect()
+            }).collect()
+        };
+        for (hidx, h) in histories.iter().enumerate() {
+            let r = guarded(|| {
+                // a tiny LP: the solver object only carries the print target here
+                let P = CscMatrix::<f64>::zeros((1, 1));
+                let A = CscMatrix::new(1, 1, vec![0, 1], vec![0], vec![1.0]);
+                let settings = DefaultSettings { verbose: false, ..DefaultSettings::default() };
+                let mut solver = DefaultSolver::new(&P, &[1.0], &A, &[1.0], &[NonnegativeConeT(1)], settings);
+                let fpath = |id: usize| format!("{}/route_{:?}_{}.txt", scratch, std::thread::current().id(), id);
+                for id in 0..3 { let _ = std::fs::remove_file(fpath(id)); }
+                let streams: Vec<Arc<Mutex<Vec<u8>>>> = (0..3).map(|_| Arc::new(Mutex::new(vec![]))).collect();
+                let mut outs: Vec<Vec<u8>> = vec![];
+                for (c, id, text) in h.iter() {
+                    let mut o: Vec<u8> = vec![0];
+                    match c {
+                        0 => solver.print_to_stdout(),
+                        1 => {
+                            let f = std::fs::OpenOptions::new().create(true).append(true).open(fpath(*id)).expect("open");
+                            solver.print_to_file(f)
+                        }
+                        2 => solver.print_to_stream(Box::new(SharedBuf(streams[*id].clone()))),
+                        3 => solver.print_to_sink(),
+                        4 => solver.print_to_buffer(),
+                        5 => {
+                            // never write to the real stdout from the harness: the model's stdout is not observed
+                            if clarabel::verif_hooks::skel::print_target_kind(&solver) != 0 {
+                                clarabel::verif_hooks::skel::print_target_write(&mut solver, text.as_bytes()).expect("write");
+                            }
+                        }
+                        6 => match solver.get_print_buffer() {
+                            Ok(st) => { o = vec![2]; o.extend_from_slice(st.as_bytes()); }
+                            Err(_) => { o = vec![1]; }
+                        },
+                        _ => clarabel::verif_hooks::skel::info_replace_by_clone(&mut solver),
+                    }
+                    outs.push(o);
+                }
+                let kind = clarabel::verif_hooks::skel::print_target_kind(&solver);
+                drop(solver);
+                let files: Vec<Vec<u8>> = (0..3).map(|id| std::fs::read(fpath(id)).unwrap_or_default()).collect();
+                for id in 0..3 { let _ = std::fs::remove_file(fpath(id)); }
+                let strs: Vec<Vec<u8>> = streams.iter().map(|s| s.lock().unwrap().clone()).collect();
+                (outs, kind, files, strs)
+            });
+            let hist_json: Vec<Value> = h.iter().map(|(c, id, t)| json!([c, id, t])).collect();
+            match r {
+                None => sink.record(json!({"direct": {"prop": "C20", "ok": false, "what": "a print-target operation panicked", "input": {"route_history": hist_json}}})),
+                Some((outs, kind, files, strs)) => {
+                    let cbytes = |b: &[u8]| clist(b, |x| format!("{}%N", x));
+                    // writes issued while the target is stdout are skipped by the harness: drop them from the model's history too
+                    let mut cur_stdout = true; // the solver starts on stdout
+                    let mut ops: Vec<String> = vec![];
+                    let mut outs_m: Vec<String> = vec![];
+                    for ((c, id, t), o) in h.iter().zip(outs.iter()) {
+                        let opstr = match c {
+                            0 => { cur_stdout = true; "ToStdout".to_string() }
+                            1 => { cur_stdout = false; format!("ToFile {}", cn(*id)) }
+                            2 => { cur_stdout = false; format!("ToStream {}", cn(*id)) }
+                            3 => { cur_stdout = false; "ToSink".to_string() }
+                            4 => { cur_stdout = false; "ToBuffer".to_string() }
+                            5 => { if cur_stdout { continue; } format!("Write {}", cbytes(t.as_bytes())) }
+                            6 => "GetBuffer".to_string(),
+                            _ => "CloneInfo".to_string(),
+                        };
+                        ops.push(opstr);
+                        outs_m.push(cbytes(o));
+                    }
+                    let files_m: Vec<String> = files.iter().enumerate().map(|(i, b)| format!("({}, {})", cn(i), cbytes(b))).collect();
+                    let strs_m: Vec<String> = strs.iter().enumerate().map(|(i, b)| format!("({}, {})", cn(i), cbytes(b))).collect();
+                    sink.case("route", json!({"label": format!("routing history {}", hidx), "route_history": hist_json, "final_kind": kind}),
+                        format!("(c_route [{}] [{}] {} [{}] [{}])", ops.join("; "), outs_m.join("; "), cn(kind as usize), files_m.join("; "), strs_m.join("; ")),
+                        &["C20"]);
+                }
+            }
         }
     }
 
